@@ -285,7 +285,7 @@ func (s *surf1) gen(idx int) *Input {
 		d.nodes = s.e.nodes[:3]
 	}
 	var fault *faultSpec
-	if tag == "" && g.chance(0.05) {
+	if tag == "" && g.chance(0.02) {
 		// a Running pod whose args annotation names a configured address that is free in memory: pod-ip sync allocates
 		// that specific address (AllocateSpecificIP), i.e. writes a FloatingIP object; often that write fails once
 		class = "sync-free-ip"
